@@ -69,7 +69,7 @@ CLAIMS = {
     },
 }
 NOT_APPLICABLE = {
-    "C03": "float add/sub/mul/div/sqrt run chains of 10-30 big-integer operations with data-dependent shift amounts and digit counts; on the real integer layer CBMC does not finish (symbolic-size buffers), and the planned integer-model engine was probed and does not finish either for base 10 (division by a symbolic power of the base). Only the rounding decision primitives are decided (claimed under C10). See DESIGN.md section 4.",
+    "C03": "float add/sub/mul/div/sqrt run chains of 10-30 big-integer operations with data-dependent shift amounts and digit counts; on the real integer layer CBMC does not finish (symbolic-size buffers), and the planned integer-model engine was probed and does not finish either for base 10 (division by a symbolic power of the base). Only the rounding decision primitives are decided (claimed under C10). A defect of Context::add/sub in base 2 (a far smaller operand treated as a tie; 240 + 1 at precision 5 under HalfAway gave 248) was seen natively while the harness bodies were exercised on random inputs and repaired (fea95aa); no registered check covers it. See DESIGN.md sections 0.2 (k) and 0.3.",
     "C04": "rational arithmetic needs gcd/division loops on symbolic integers through the real integer layer (out of memory in CBMC) - not reachable; see DESIGN.md section 4",
     "C08": "float parsing/printing/base conversion run on the float layer that is not reachable (see C03) - DESIGN.md section 4",
     "C11": "accuracy of exp/ln/pow against a transcendental true value cannot be stated as a bit-vector assertion without a second rigorous series evaluation; the series loops run on >100-bit integers with data-dependent trip counts - outside bounded symbolic execution (DESIGN.md section 4)",
